@@ -78,6 +78,8 @@ def run(chk, repo):
         'C05.c noncanonical-transcripts / backsplicing-only only add skips',
         'C05.d applying a variant creates nodes and edges only; splices use reference edges; nothing is removed from the host graph',
         'C05.e adding a GVF file only appends pointers',
+        'C05.h the allowance for a leading Met (series length gate, size gate) equals the number of residues removed from the emitted Met-cleaved form',
+        'C05.i every out-edge of a visited node is staged for traversal unless it leads to the stop sentinel itself',
     ]
     chk.not_decided = ['that every added peptide is attributable to the relaxation', 'interactions through the complexity limits',
                        'W2F / SECT flags also enlarge the per-transcript denylist: reported by C05.g as known findings']
@@ -292,6 +294,80 @@ def run(chk, repo):
                f"the denylist (peptides that are REJECTED) is built with {kw}={unparse(a) if a is not None else None}: switching the flag on adds the "
                f"{'W>F images' if kw == 'w2f' else 'Sec-truncated forms'} of reference peptides to the denylist, so a variant peptide equal to one of them "
                "disappears when the flag is enabled (non-monotone)", key=f"{wr.qual}::denylist-flag::{kw}", fn=wr.qual)
+
+    # ------------------------------------------------------------------ h
+    from sa.affine import simple_aff, Aff
+    chk.rule('C05.h', 'R-AFFINE-EQV: the three sites of the leading-Met allowance agree on the length of the Met-cleaved form', 3)
+    tmq = 'svgraph.VariantPeptideDict:MiscleavedNodes.translational_modification'
+    tm = repo.func(tmq)
+    jm = repo.func('svgraph.VariantPeptideDict:MiscleavedNodes.join_miscleaved_peptides')
+    tl = repo.func('svgraph.VariantPeptideDict:MiscleavedNodeSeries.is_too_long')
+    chk.uses(tm, jm, tl)
+    # k = number of residues removed from the N-terminus of the emitted Met-cleaved form
+    ks = set()
+    for n in walk_no_nested(tm.node):
+        if isinstance(n, ast.Assign) and isinstance(n.value, ast.Subscript) and isinstance(n.value.slice, ast.Slice) \
+                and n.value.slice.upper is None and isinstance(n.value.slice.lower, ast.Constant) and unparse(n.targets[0]) == 'cur_seq':
+            ks.add(n.value.slice.lower.value)
+    if len(ks) != 1:
+        raise AnalysisError(f"anchor={tmq}: Met-cleaved form `cur_seq = <seq>[k:]` not found / inconsistent ({sorted(ks)})")
+    k = ks.pop()
+    tr = G.find_calls(tm.node, 'truncate_left')
+    chk.ob('C05.h', f"translational_modification: the node chain of the cleaved form is truncated by the same {k} residue(s)", tm.where,
+           bool(tr) and all(len(c.args) == 1 and isinstance(c.args[0], ast.Constant) and c.args[0].value == k for c in tr),
+           f"sequence is cut by {k} but the leading node by {[unparse(c.args[0]) for c in tr if c.args]}", key=tmq + '::cleaved-k', fn=tm.qual)
+    gates = []
+    for c in G.find_calls(jm.node, 'seq_has_valid_size'):
+        par = repo.parent(c)
+        if isinstance(par, ast.BoolOp) and isinstance(par.op, ast.And) and any("startswith('M')" in unparse(v) for v in par.values):
+            gates.append(c)
+    if len(gates) != 1:
+        raise AnalysisError('anchor=join_miscleaved_peptides: Met allowance of the size gate not found')
+    a = kwarg(gates[0], 'size')
+    av = simple_aff(a) if a is not None else None
+    chk.ob('C05.h', f"join_miscleaved_peptides: the size gate admits a Met-leading series when size - {k} is a valid size", repo.loc(jm, gates[0]),
+           av is not None and av == Aff.sym('size') - k,
+           f"the gate tests seq_has_valid_size(size={unparse(a) if a is not None else '?'}) = {av}, but the emitted Met-cleaved form has size - {k} residues: "
+           f"a series of max_length + {k} starting with M is dropped (its legal cleaved form of exactly max_length is lost, while it is reported under "
+           "max_length + 1: relaxing the limit adds a peptide inside the stricter limit)", key=jm.qual + '::met-allowance', fn=jm.qual)
+    cmps = [n for n in ast.walk(tl.node) if isinstance(n, ast.Compare) and isinstance(repo.parent(n), ast.BoolOp) and isinstance(repo.parent(n).op, ast.And)
+            and any("startswith('M')" in unparse(v) for v in repo.parent(n).values)]
+    okl = False
+    got = None
+    if len(cmps) == 1 and len(cmps[0].ops) == 1 and isinstance(cmps[0].ops[0], ast.LtE):
+        got = simple_aff(cmps[0].comparators[0])
+        okl = unparse(cmps[0].left) == 'len(self)' and got == Aff.sym('param.max_length') + k
+    chk.ob('C05.h', f"is_too_long: a series starting with M may be max_length + {k} long", tl.where, okl,
+           f"allowance is {got}: the series whose Met-cleaved form has exactly max_length residues is abandoned (or longer ones kept)", key=tl.qual + '::met-allowance', fn=tl.qual)
+
+    # ------------------------------------------------------------------ i
+    from sa.cfg import CFG as _CFG
+    chk.rule('C05.i', 'R-COVER: every out-edge of a visited node is staged unless it leads to the stop sentinel (identity)', 6)
+    nst = 0
+    for fn in repo.funcs_in('svgraph.PeptideVariantGraph'):
+        if not fn.name.startswith('call_and_stage'):
+            continue
+        loops = [l for l in walk_no_nested(fn.node) if isinstance(l, ast.For) and unparse(l.iter) == 'target_node.out_nodes']
+        if not loops:
+            continue
+        chk.uses(fn)
+        c = _CFG(fn.node)
+        for li, lp in enumerate(loops):
+            x = unparse(lp.target)
+
+            def is_stage(st, x=x):
+                return isinstance(st, ast.Expr) and isinstance(st.value, ast.Call) and call_name(st.value) == 'stage' \
+                    and len(st.value.args) >= 2 and unparse(st.value.args[1]) == x
+            n, nsites, wit = G.iter_covers(c, lp, f"{x} is not self.stop", is_stage, max_paths=60000)
+            chk.paths += n
+            nst += 1
+            chk.ob('C05.i', f"{fn.name}: each {x} in target_node.out_nodes is staged unless `{x} is self.stop` ({n} iteration paths)", repo.loc(fn, lp),
+                   nsites > 0 and not wit,
+                   f"an out-edge can be left unstaged although the node is not known to be the stop sentinel"
+                   + (f" (path: {'; '.join(wit[0].describe(fn.module.relpath)[:5])})" if wit else '')
+                   + ": PVGTraversal.stage visits a node only after ALL its in-edges were staged, so the node behind the edge (and everything only "
+                   "reachable through it) is never visited - e.g. an in-graph '*' node of a stop-gain bubble starves the join node and all downstream peptides",
+                   key=f"{fn.qual}::stage-all::{li}", fn=fn.qual)
 
 
 def flag_polarity(e, flag):
